@@ -16,6 +16,8 @@
                         largest metric sum, area strictly below (1 + CELL_SIZE_TOL) of the smallest,
                         largest sin;
      one-dimensional    (no admissible pair) the shortest span.
+   (volume |det|, area |a x b| and the angles are written through scalar products, see the Gram matrix G below,
+    so the same rule is exact in any lattice frame with integer scalar products - cubic and hexagonal ones are used)
 
    Best(sp, me) is the *set* of answers the rule allows (exact ties leave the choice open; floating point may
    break them either way).  Inputs on which a float comparison sits within 1 % of a threshold, or exactly on
@@ -31,46 +33,53 @@
 EXTENDS Integers, Sequences, FiniteSets, TLC
 
 Abs(x) == IF x < 0 THEN -x ELSE x
-Dot(a, b) == a[1] * b[1] + a[2] * b[2] + a[3] * b[3]
-Cross(a, b) == <<a[2] * b[3] - a[3] * b[2], a[3] * b[1] - a[1] * b[3], a[1] * b[2] - a[2] * b[1]>>
+\* The spans are integer coordinate vectors in a lattice frame whose Gram matrix G (scalar products of the frame
+\* vectors, integers) is a parameter: G = identity is the orthonormal frame, <<2,-1,0>>,<<-1,2,0>>,<<0,0,g>> a hexagonal one.
+\* Everything the rule compares is expressed through scalar products:  |a x b|^2 = |a|^2 |b|^2 - (a.b)^2  and
+\* det(a,b,c)^2 = the Gram determinant of the three vectors.
+CONSTANT G
+Dot(a, b) == LET r(i) == G[i][1] * b[1] + G[i][2] * b[2] + G[i][3] * b[3] IN a[1] * r(1) + a[2] * r(2) + a[3] * r(3)
 N2(a) == Dot(a, a)
-Det(a, b, c) == Dot(a, Cross(b, c))
+N2Cross(a, b) == N2(a) * N2(b) - Dot(a, b) * Dot(a, b)
+Det2(a, b, c) == LET aa == Dot(a, a) bb == Dot(b, b) cc == Dot(c, c) ab == Dot(a, b) ac == Dot(a, c) bc == Dot(b, c) IN
+    aa * (bb * cc - bc * bc) - ab * (ab * cc - bc * ac) + ac * (ab * bc - bb * ac)
+DetG == Det2(<<1, 0, 0>>, <<0, 1, 0>>, <<0, 0, 1>>)
 
-\* sin^2(20 deg) = 0.116978 as S2 / DEN (constants.ANGLE_TOL = 20; the harness checks the live constant)
-S2 == 1170
-DEN == 10000
+\* sin^2(20 deg) = 0.116978 as S2 / DEN (0.02 % off; inputs within 1 % of the threshold are Ambiguous) (constants.ANGLE_TOL = 20; the harness checks the live constant)
+S2 == 117
+DEN == 1000
 \* constants.CELL_SIZE_TOL = 0.25:  V <= 1.25 Vmin  <=>  4 V <= 5 Vmin
 TolNum == 5
 TolDen == 4
 
 \* ---- comparison with the angle threshold:  x / y >= S2 / DEN  with x, y >= 0
 AboveThr(x, y) == y > 0 /\ x * DEN >= S2 * y
-NearThr(x, y) == y > 0 /\ 100 * Abs(x * DEN - S2 * y) <= S2 * y
+NearThr(x, y) == y > 0 /\ Abs(x * DEN - S2 * y) <= (S2 * y) \div 100
 
 \* ---- triples
 Triples(n) == {t \in (1..n) \X (1..n) \X (1..n) : t[1] < t[2] /\ t[2] < t[3]}
-D2(sp, t) == Det(sp[t[1]], sp[t[2]], sp[t[3]]) * Det(sp[t[1]], sp[t[2]], sp[t[3]])
+D2(sp, t) == Det2(sp[t[1]], sp[t[2]], sp[t[3]])
 AngTerms(sp, t) == LET a == sp[t[1]] b == sp[t[2]] c == sp[t[3]] IN
-    {N2(a) * N2(Cross(b, c)), N2(b) * N2(Cross(c, a)), N2(c) * N2(Cross(a, b))}
+    {N2(a) * N2Cross(b, c), N2(b) * N2Cross(c, a), N2(c) * N2Cross(a, b)}
 Admissible3(sp, t) == \A y \in AngTerms(sp, t) : AboveThr(D2(sp, t), y)
 Near3(sp, t) == \E y \in AngTerms(sp, t) : NearThr(D2(sp, t), y)
 MSum(me, t) == IF Len(t) = 3 THEN me[t[1]] + me[t[2]] + me[t[3]] ELSE me[t[1]] + me[t[2]]
-Vol(sp, t) == Abs(Det(sp[t[1]], sp[t[2]], sp[t[3]]))
+Vol2(sp, t) == Det2(sp[t[1]], sp[t[2]], sp[t[3]])   \* squared volume
 \* orthogonality score as a fraction  OrthoN / OrthoD  (larger = more orthogonal)
 OrthoD(sp, t) == N2(sp[t[1]]) * N2(sp[t[2]]) * N2(sp[t[3]])
 OrthoN(sp, t) == LET a == sp[t[1]] b == sp[t[2]] c == sp[t[3]] IN
-    N2(Cross(a, b)) * N2(c) + N2(Cross(c, a)) * N2(b) + N2(Cross(b, c)) * N2(a)
+    N2Cross(a, b) * N2(c) + N2Cross(c, a) * N2(b) + N2Cross(b, c) * N2(a)
 MoreOrEqOrtho(sp, s, t) == OrthoN(sp, s) * OrthoD(sp, t) >= OrthoN(sp, t) * OrthoD(sp, s)
 
 Adm3(sp) == {t \in Triples(Len(sp)) : Admissible3(sp, t)}
 MaxMetric(me, S) == {t \in S : \A u \in S : MSum(me, t) >= MSum(me, u)}
-SmallVol(sp, S) == {t \in S : \A u \in S : TolDen * Vol(sp, t) <= TolNum * Vol(sp, u)}
+SmallVol(sp, S) == {t \in S : \A u \in S : TolDen * TolDen * Vol2(sp, t) <= TolNum * TolNum * Vol2(sp, u)}
 MostOrtho(sp, S) == {t \in S : \A u \in S : MoreOrEqOrtho(sp, t, u)}
 Best3(sp, me) == MostOrtho(sp, SmallVol(sp, MaxMetric(me, Adm3(sp))))
 
 \* ---- pairs
 Pairs(n) == {t \in (1..n) \X (1..n) : t[1] < t[2]}
-Sin2N(sp, t) == N2(Cross(sp[t[1]], sp[t[2]]))
+Sin2N(sp, t) == N2Cross(sp[t[1]], sp[t[2]])
 Sin2D(sp, t) == N2(sp[t[1]]) * N2(sp[t[2]])
 Adm2(sp) == {t \in Pairs(Len(sp)) : AboveThr(Sin2N(sp, t), Sin2D(sp, t))}
 \* area^2 = |a x b|^2 ;  A < 1.25 Amin  <=>  16 A^2 < 25 Amin^2
@@ -90,13 +99,16 @@ Dim(sp) == IF Len(sp) = 1 THEN 1 ELSE IF Len(sp) >= 3 /\ Adm3(sp) # {} THEN 3 EL
 Ambiguous(sp, me) ==
     \/ Len(sp) >= 3 /\ \E t \in Triples(Len(sp)) : Near3(sp, t)
     \/ Len(sp) >= 2 /\ \E t \in Pairs(Len(sp)) : NearThr(Sin2N(sp, t), Sin2D(sp, t))
-    \/ LET S == MaxMetric(me, Adm3(sp)) IN Len(sp) >= 3 /\ \E t, u \in S : TolDen * Vol(sp, t) = TolNum * Vol(sp, u)
+    \/ LET S == MaxMetric(me, Adm3(sp)) IN Len(sp) >= 3 /\ \E t, u \in S : TolDen * TolDen * Vol2(sp, t) = TolNum * TolNum * Vol2(sp, u)
     \/ LET S == MaxMetric(me, Adm2(sp)) IN \E t, u \in S : TolDen * TolDen * Sin2N(sp, t) = TolNum * TolNum * Sin2N(sp, u)
 
 \* ================= design model =================
 CONSTANTS NMax, Met, EqualMetrics
+GCubic == <<<<1, 0, 0>>, <<0, 1, 0>>, <<0, 0, 1>>>>
+GHex == <<<<2, -1, 0>>, <<-1, 2, 0>>, <<0, 0, 5>>>>      \* hexagonal frame, (c/a)^2 = 5/2
+USmall == {v \in (-1..1) \X (-1..1) \X (0..1) : v # <<0, 0, 0>>}
 \* universe: one vector per direction class of small integer vectors (sign-reduced), plus multiples
-U == {v \in (-1..1) \X (-1..1) \X (0..1) : v # <<0, 0, 0>>} \cup {<<2, 0, 0>>, <<0, 2, 0>>, <<1, 1, 2>>, <<2, 1, 0>>}
+U == IF G = GCubic THEN USmall \cup {<<2, 0, 0>>, <<0, 2, 0>>, <<1, 1, 2>>, <<2, 1, 0>>} ELSE USmall
 VARIABLES sp, me, done
 vars == <<sp, me, done>>
 Distinct(s) == \A p, q \in 1..Len(s) : p # q => s[p] # s[q]
@@ -113,11 +125,11 @@ Spec == Init /\ [][Next]_vars
 Total == Best(sp, me) # {}
 Independent == \A r \in Best(sp, me) :
     /\ Len(r) = Dim(sp)
-    /\ Len(r) = 3 => Det(sp[r[1]], sp[r[2]], sp[r[3]]) # 0
-    /\ Len(r) = 2 => Cross(sp[r[1]], sp[r[2]]) # <<0, 0, 0>>
+    /\ Len(r) = 3 => Det2(sp[r[1]], sp[r[2]], sp[r[3]]) # 0
+    /\ Len(r) = 2 => N2Cross(sp[r[1]], sp[r[2]]) # 0
 \* when the candidates contain an admissible basis of the integer lattice itself, the choice is such a basis
 PrimitiveWhenAvailable ==
-    (Len(sp) >= 3 /\ \E t \in Adm3(sp) : Vol(sp, t) = 1) => \A r \in Best(sp, me) : Vol(sp, r) = 1
+    (Len(sp) >= 3 /\ \E t \in Adm3(sp) : Vol2(sp, t) = DetG) => \A r \in Best(sp, me) : Vol2(sp, r) = DetG
 \* the rule does not depend on the order in which the spans are listed (reversal and rotation generate enough)
 Vecs(s, r) == {s[r[k]] : k \in 1..Len(r)}
 Rev(s) == [k \in 1..Len(s) |-> s[Len(s) + 1 - k]]
